@@ -225,6 +225,12 @@ class PVTRReader(_PVTKReader):
     ) -> RectilinearMesh:
         extents = decomposition.merged_extents()
         ordinates = [zeros(shape=(extents[i] + 1,)) for i in range(_VTK_SPACE_DIM)]
+        for direction in range(_VTK_SPACE_DIM):
+            if not decomposition.is_meshed_dimension(direction):
+                # flat direction: all pieces share the (single) ordinate
+                first_reader = piece_readers[0]
+                assert isinstance(first_reader, VTRReader)
+                ordinates[direction][:] = first_reader.ordinates(direction)
         for meshed_idx, direction in enumerate(decomposition.meshed_dimensions()):
             index_offset = 0
             for i in range(len(decomposition.decomposition_along(direction))):
